@@ -230,6 +230,21 @@ func runC14Bubble(t *testing.T, tape *sim.Tape, tier string, o *Outcome, schedp 
 			return
 		}
 		running := true
+		// a third of the runs: a second server object serves in the same process (its own handler, another port);
+		// whatever the two share is shared by their connection goroutines
+		var srv2 *redis.Server
+		plainAddrs := []string{addrOf(plainPort)}
+		if tape.Draw(3, "secondserver") == 2 {
+			srv2 = redis.NewServer()
+			srv2.SetCommandHandler(wl.NewRefStore())
+			srv2.SetPort(plainPort + 100)
+			if err := srv2.Start(); err != nil {
+				o.violate("harness:start", "Start of the second server failed: %v", err)
+				return
+			}
+			plainAddrs = append(plainAddrs, addrOf(plainPort+100))
+			o.stat("runs_with_two_servers_in_one_process", 1)
+		}
 		synctest.Wait()
 		var conns []*freeConn
 		nextID := 0
@@ -243,6 +258,7 @@ func runC14Bubble(t *testing.T, tape *sim.Tape, tier string, o *Outcome, schedp 
 			{"SADD", "s", "m"}, {"ZADD", "z", "1", "m"}, {"ZRANGE", "z", "0", "-1"}, {"DEL", "k"}, {"KEYS", "*"}, {"SELECT", "1"}, {"AUTH", "pw"}, {"AUTH", "nope"},
 			{"CONFIG", "SET", "maxclients", "10"}, {"CONFIG", "GET", "maxclients"}, {"CONFIG", "SET", "requirepass", "pw"}, {"CONFIG", "GET", "port"}, {"CONFIG", "GET", "*"}, {"CONFIG", "GET", "tls-*"}, {"CONFIG", "GET", "requirepass", "max*"}, {"CONFIG", "SET", "port", fmt.Sprint(plainPort)},
 			{"MSET", "a", "1", "b", "2"}, {"APPEND", "k", "x"}, {"EXPIRE", "k", "10"}, {"QUIT"},
+			{"get", "k"}, {"Ping"}, {"set", "k", "v"}, {"Incr", "n"}, {"hGetAll", "h"}, {"select", "1"}, {"echo", "x"}, {"Echo", "x"},
 			{"GET", "shared:status"}, {"GET", "shared:status"}, {"GET", "shared:error"}, {"GET", "shared:bulk"}, {"GET", "shared:int"},
 		}
 		if withTLS {
@@ -287,7 +303,7 @@ func runC14Bubble(t *testing.T, tape *sim.Tape, tier string, o *Outcome, schedp 
 					nextID++
 					sched.WriteString("T")
 				case kind < 3 || len(conns) == 0: // dial
-					if e := fn.Dial(addrOf(plainPort), nextID); e != nil {
+					if e := fn.Dial(plainAddrs[tape.Draw(len(plainAddrs), "server")], nextID); e != nil {
 						conns = append(conns, &freeConn{id: nextID, end: e})
 						o.stat("stim_dial", 1)
 					} else {
@@ -302,10 +318,20 @@ func runC14Bubble(t *testing.T, tape *sim.Tape, tier string, o *Outcome, schedp 
 						sched.WriteString("-")
 						continue
 					}
+					if tape.Draw(2, "mixcase") == 1 {
+						// the name in a seed-chosen mix of upper and lower case (there are many spellings of a name)
+						b := []byte(cmd[0])
+						for i := range b {
+							if tape.Draw(2, "lower") == 1 {
+								b[i] = byte(strings.ToLower(string(b[i]))[0])
+							}
+						}
+						cmd = append([]string{string(b)}, cmd[1:]...)
+					}
 					c.end.Write(resp.Cmd(cmd...))
 					c.end.Drain()
 					o.stat("stim_command", 1)
-					if cmd[0] == "CONFIG" {
+					if strings.EqualFold(cmd[0], "CONFIG") {
 						o.stat("stim_config", 1)
 					}
 					sched.WriteString("C")
@@ -403,6 +429,9 @@ func runC14Bubble(t *testing.T, tape *sim.Tape, tier string, o *Outcome, schedp 
 			c.end.Reset()
 		}
 		srv.Stop()
+		if srv2 != nil {
+			srv2.Stop()
+		}
 		fn.CloseAll()
 		synctest.Wait()
 	})
@@ -412,7 +441,7 @@ func init() {
 	register(&Check{
 		ID: "C14", Bubble: false, Run: runC14, NoShrink: false,
 		Runs:   map[string]int{"quick": 6000, "thorough": 150000},
-		Rule:   "a case is one run of 3..12 steps; each step releases a seed-chosen batch of 2..8 (thorough ..32) concurrent stimuli (dials, in a quarter of the runs also TLS clients with accepted/rejected/missing certificates doing a real handshake against the TLS port, commands of every family incl. reads of keys that the application answers with prepared message objects (status and error with CR LF in the text, bulk, integer; renewed at every step, shared by all connections), CONFIG SET/GET (also of the TLS file settings and ports) and AUTH, close/reset/half-close, registry queries incl. Close on a returned connection, at most one Start/Stop/Restart, half of them after the application changed or removed the password) and then waits for quiescence; the harness and the repo are built with -race and a report counts when both access stacks contain a framework frame; distinct = distinct stimulus-batch sequences; non-trivial = the run contains a lifecycle call, registry query or disconnect",
+		Rule:   "a case is one run of 3..12 steps; a third of the runs have a second server object serving on another port in the same process; each step releases a seed-chosen batch of 2..8 (thorough ..32) concurrent stimuli (dials, in a quarter of the runs also TLS clients with accepted/rejected/missing certificates doing a real handshake against the TLS port, commands of every family incl. reads of keys that the application answers with prepared message objects (status and error with CR LF in the text, bulk, integer; renewed at every step, shared by all connections), CONFIG SET/GET (also of the TLS file settings and ports) and AUTH, close/reset/half-close, registry queries incl. Close on a returned connection, at most one Start/Stop/Restart, half of them after the application changed or removed the password) and then waits for quiescence; the harness and the repo are built with -race and a report counts when both access stacks contain a framework frame; distinct = distinct stimulus-batch sequences; non-trivial = the run contains a lifecycle call, registry query or disconnect",
 		Real:   []string{"redis.Server (all of it) under the Go race detector", "reference store (internally locked)"},
 		Stub:   []string{"network: free-running simulated listener/connections with per-object locks only", "scheduler: seed decides stimuli and step boundaries; inside a step the Go runtime runs freely (the verdict is a happens-before property)"},
 		Assume: []string{"verdicts replay, traces do not: the replay criterion is that the same site pair is reported", "two lifecycle calls are never issued concurrently with each other"},
